@@ -27,8 +27,9 @@ type concCorpus struct {
 	want  map[[3]int]string
 	// containers beyond every plausible size threshold (1500-element array, 1100-member object, 5000 numbers): evaluated
 	// only by the paths of bigPaths (ground truth for every (path, big document) pair would dominate the run)
-	nSmall   int
-	bigPaths []int
+	nSmall    int
+	bigPaths  []int
+	longPaths []int // the paths whose comparators work on the long string subjects
 }
 
 // compactOutcome keeps long outcomes (results on the big documents) as head + digest.
@@ -80,7 +81,9 @@ func buildCorpus(seed int64) *concCorpus {
 		}
 	}
 	// literal-only comparisons: the shape that raced on the tree's literal
-	for _, t := range []string{`$[?(1 == 2)]`, `$[?(1 < 2)]`, `$[?('a' != 'b')]`, `$[?(2 > $.x)]`, `$.c[?(1 <= $.a)]`} {
+	// ... and regex / string comparisons whose subjects are LONG strings (documents below): per-subject work of a comparator
+	for _, t := range []string{`$[?(1 == 2)]`, `$[?(1 < 2)]`, `$[?('a' != 'b')]`, `$[?(2 > $.x)]`, `$.c[?(1 <= $.a)]`,
+		`$[?(@.t =~ /^A+$/)]`, `$[?(@.t =~ /B/)].t`, `$..[?(@ =~ /^A+$/)]`, `$[?(@.t == $[0].t)]`, `$[?(@.t != 'AAAAAAAAAAAAAAAAAAAAAAAAAAAAAAAAAAAAAAAAAAAAAAAA')]`} {
 		if !seen[t] {
 			seen[t] = true
 			cc.texts = append(cc.texts, t)
@@ -115,6 +118,15 @@ func buildCorpus(seed int64) *concCorpus {
 		cc.docs = append(cc.docs, lib.Decode(dj, i%2 == 1))
 		cc.docJS = append(cc.docJS, dj)
 	}
+	// long string subjects (48 and 300 bytes), the same shape with different verdicts per document
+	for i, dj := range []string{
+		`[{"t":"` + strings.Repeat("A", 48) + `"},{"t":"` + strings.Repeat("A", 300) + `"},{"t":"` + strings.Repeat("A", 48) + `"},{"t":"A"}]`,
+		`[{"t":"` + strings.Repeat("B", 48) + `"},{"t":"` + strings.Repeat("B", 300) + `"},{"t":"` + strings.Repeat("A", 47) + `B"},{"t":"B"}]`,
+		`[{"t":"` + strings.Repeat("A", 47) + `B"},{"t":"` + strings.Repeat("A", 48) + `"},{"t":"` + strings.Repeat("B", 48) + `"}]`,
+	} {
+		cc.docs = append(cc.docs, lib.Decode(dj, i%2 == 1))
+		cc.docJS = append(cc.docJS, short(dj, 200))
+	}
 	cc.nSmall = len(cc.docs)
 	for i, d := range bigDocs() {
 		cc.docs = append(cc.docs, d)
@@ -124,6 +136,11 @@ func buildCorpus(seed int64) *concCorpus {
 	for i, t := range cc.texts {
 		if (strings.HasPrefix(t, "$[?(") && len(cc.bigPaths) < 14 && i%3 == 0) || i%40 == 0 {
 			cc.bigPaths = append(cc.bigPaths, i)
+		}
+	}
+	for i, t := range cc.texts {
+		if strings.Contains(t, "@.t") || strings.Contains(t, "/^A+$/") {
+			cc.longPaths = append(cc.longPaths, i)
 		}
 	}
 	isBig := map[int]bool{}
@@ -165,7 +182,7 @@ func init() {
 		Level: "exploration",
 		Rule: "case = one run: G in {2,4,8,16} goroutines, each a seeded mix of Parse(path, config), calls of SHARED parsed functions on SHARED read-only documents and " +
 			"Retrieve (runs are mixed, evaluation-only — no lock taken, hence no happens-before edge between goroutines at all — or parse-only), over a corpus of ~400 paths (every step kind x function suffix, a slice of every comparison/logical shape, literal-only comparisons, random ASTs) x 3 " +
-			"configurations x 37 documents (34 small ones; a 1500-element array, a 1100-member object and 5000 numbers evaluated by 20 of the paths); in a third of the runs half of the operations go to a hot set of five (path, configuration, document) triples and 2% to one on a big document; scheduler yields injected at the Parse/evaluation hook points; executed once under the Go race detector and once without; " +
+			"configurations x 40 documents (37 small ones, three of them with string members of 48..300 bytes; a 1500-element array, a 1100-member object and 5000 numbers evaluated by 20 of the paths); in a third of the runs half of the operations go to a hot set of five (path, configuration, document) triples and 2% to one on a big document; scheduler yields injected at the Parse/evaluation hook points; executed once under the Go race detector and once without; " +
 			"judged: zero race reports with a library frame, and every operation returns exactly its sequential outcome (computed before any goroutine starts); " +
 			"non-trivial = every operation executed while other goroutines were inside the library; distinct = distinct (operation kind, path, configuration, document) combinations; the evidence reports operations, the maximum number of " +
 			"evaluations in flight and how many evaluations overlapped a Parse",
@@ -228,16 +245,23 @@ func runC06(c *harness.Ctx, cc *concCorpus, opsPerG int) {
 	if procs == 1 || procs == 2 {
 		opsPerG = opsPerG * procs / 4 // the same goroutines on one or two Ps take proportionally longer
 	}
-	// hot set: in a third of the runs half of the operations go to five (path, configuration, document) triples and 2% to one
-	// triple on a big document, so that the SAME parsed function is inside the library on several goroutines at once
+	// hot set: in a third of the runs half of the operations go to six (path, configuration, document) triples (three of them ONE
+	// path on three different documents) and 2% to one triple on a big document, so that the SAME parsed function is inside the library on several goroutines at once
 	var hot [][3]int
 	if c.K%3 == 1 {
-		for len(hot) < 6 {
+		for len(hot) < 4 {
 			h := [3]int{r.Intn(len(cc.texts)), r.Intn(len(cc.cfgs)), r.Intn(cc.nSmall)}
 			if len(hot) < 1 {
 				h[0], h[2] = cc.bigPaths[r.Intn(len(cc.bigPaths))], cc.nSmall+r.Intn(len(cc.docs)-cc.nSmall)
 			}
 			hot = append(hot, h)
+		}
+		// ... and ONE parsed function on DIFFERENT documents at the same time (per-call scratch kept in the tree shows as wrong
+		// results, not only as a race, when the calls disagree about it): one of the long-subject paths on the three
+		// long-string documents
+		lp, lj := cc.longPaths[r.Intn(len(cc.longPaths))], r.Intn(len(cc.cfgs))
+		for d := cc.nSmall - 3; d < cc.nSmall; d++ {
+			hot = append(hot, [3]int{lp, lj, d})
 		}
 		c.Cover("load:hot-set")
 	}
